@@ -1142,6 +1142,15 @@ func (conf *Conf) Validate(l logger.Writer) error {
 		conf.PathDefaults.RecordDeleteAfter = *conf.RecordDeleteAfter
 	}
 
+	// path defaults
+
+	for i := range conf.PathDefaults.AlwaysAvailableTracks {
+		err := conf.PathDefaults.AlwaysAvailableTracks[i].validate()
+		if err != nil {
+			return fmt.Errorf("invalid 'alwaysAvailableTracks': %w", err)
+		}
+	}
+
 	// paths
 
 	hasAllOthers := false
